@@ -94,7 +94,7 @@ pub fn run(tier: Tier) -> i32 {
     let rep = Report::new("C08", tier, "model_checking");
     rep.set_rule("SCOPE: full product over states 1..N of (mean in {0.2,0.49,0.5,1.5,2.5,10,60}) x (variance in {1e-3,1,400}) x speed lattice {0.1..50} plus F1/(k+0.5)(1±1e-9) rounding boundaries, on the real DurationEstimator::create; distinct = distinct (model, speed) pairs; non-trivial = every case (each evaluates the total-frames law)");
     rep.assume("means/variances/speeds outside the listed alphabets are not explored; at exact .5 ties either rounding is accepted");
-    let max_states = tier.pick(4usize, 4usize);
+    let max_states = tier.pick(4usize, 5usize);
     let per = MEANS.len() * VARS.len();
     let ties = AtomicU64::new(0);
     let floors = AtomicU64::new(0);
@@ -102,7 +102,7 @@ pub fn run(tier: Tier) -> i32 {
     for ns in 1..=max_states {
         let total = per.pow(ns as u32);
         nmodels += total as u64;
-        par_for(total, 64, |code| {
+        rep.par_for(total, 64, "C08 part 1", |code| {
             let mut c = code;
             let mut p = Vec::new();
             for _ in 0..ns {
@@ -121,7 +121,7 @@ pub fn run(tier: Tier) -> i32 {
         for ns in 5..=6usize {
             let total = red.len().pow(ns as u32);
             nmodels += total as u64;
-            par_for(total, 16, |code| {
+            rep.par_for(total, 16, "C08 part 2", |code| {
                 let mut c = code;
                 let p: Vec<MeanVari> = (0..ns)
                     .map(|_| {
@@ -152,7 +152,7 @@ pub fn run(tier: Tier) -> i32 {
             }
         }
         nmodels += pats.len() as u64;
-        par_for(pats.len(), 8, |i| {
+        rep.par_for(pats.len(), 8, "C08 part 3", |i| {
             let p: Vec<MeanVari> = (0..200).map(|k| pats[i][k % pats[i].len()]).collect();
             if let Some((k, what, s)) = check_model(&p, &rep, &ties, &floors) {
                 rep.violation(k, what, json!({"periodic_pattern": pats[i].iter().map(|m| [m.0, m.1]).collect::<Vec<_>>(), "states": 200, "speed": s}));
@@ -166,7 +166,7 @@ pub fn run(tier: Tier) -> i32 {
     let starts: Vec<usize> = ((seed() as usize % stride)..corpus.len() - 8).step_by(stride).collect();
     let e2e_speeds = [0.25, 0.5, 0.999, 1.0, 1.2, 1.4, 2.0, 4.0, 50.0];
     let e2e = AtomicU64::new(0);
-    par_for(starts.len(), 1, |i| {
+    rep.par_for(starts.len(), 1, "C08 part 4", |i| {
         let win: Vec<&str> = corpus[starts[i]..starts[i] + if i % 2 == 0 { 3 } else { 8 }].iter().map(|s| s.as_str()).collect();
         let f1 = match catch(|| base.generator(&win[..]).map(|g| g.verif_parameters().1.len())) {
             Ok(Ok(n)) => n,
